@@ -157,10 +157,22 @@ class ExternalVariableCollector(NodeVisitor):
 
     def visit_FunctionDef(self, node):
         self.funcnames.add(node.name)
-        if node is not self.root:
-            # A nested def binds its name in the enclosing function
-            self.provenance[node.name] = "body"
-            self.assigned.add(node.name)
+        if node is self.root:
+            # The default values, annotations and decorators of the function
+            # are evaluated in the enclosing scope: they are not variables
+            # of the function itself
+            args = node.args
+            for arg in [*args.posonlyargs, *args.args, *args.kwonlyargs]:
+                self.visit(arg)
+            for arg in (args.vararg, args.kwarg):
+                if arg is not None:
+                    self.visit(arg)
+            for stmt in node.body:
+                self.visit(stmt)
+            return
+        # A nested def binds its name in the enclosing function
+        self.provenance[node.name] = "body"
+        self.assigned.add(node.name)
         self.generic_visit(node)
 
     def visit_ClassDef(self, node):
@@ -1007,6 +1019,20 @@ class _Conformer2:
 _MISSING = object()
 
 
+def _strip_signature(tree):
+    """Remove the default values and the annotations of a function."""
+    args = tree.args
+    args.defaults = [ast.Constant(value=None) for _ in args.defaults]
+    args.kw_defaults = [
+        dflt and ast.Constant(value=None) for dflt in args.kw_defaults
+    ]
+    all_args = [*args.posonlyargs, *args.args, *args.kwonlyargs]
+    for arg in [*all_args, args.vararg, args.kwarg]:
+        if arg is not None:
+            arg.annotation = None
+    tree.returns = None
+
+
 def _compile(filename, tree, freevars):
     if freevars:
         if sys.version_info >= (3, 8, 0):  # pragma: no cover
@@ -1179,6 +1205,9 @@ def transform(fn, proceed, to_instrument=True, set_conformer=True):
         to_instrument=to_instrument,
     )
     new_tree = transformer.result
+    # The defaults and annotations of the new function are those of the
+    # original one (see below): the expressions must not be evaluated again
+    _strip_signature(new_tree)
     ast.fix_missing_locations(new_tree)
     _, lineno = inspect.getsourcelines(fn)
     ast.increment_lineno(new_tree, lineno - 1)
@@ -1207,6 +1236,9 @@ def transform(fn, proceed, to_instrument=True, set_conformer=True):
         )
     else:
         actual_fn = glb[fname]
+    actual_fn.__defaults__ = fn.__defaults__
+    actual_fn.__kwdefaults__ = fn.__kwdefaults__
+    actual_fn.__annotations__ = fn.__annotations__
 
     glb[fnsym] = actual_fn
 
